@@ -45,8 +45,9 @@ def run(ctx):
         bs = 8 if alg == "tdes" else 16
         for ks in KS[alg]:
             for nb in range(1, 7):
-                for _ in range(ctx.n(1, 6)):
-                    key, iv, data = rng.randbytes(ks), rng.randbytes(bs), rng.randbytes(nb * bs)
+                for _ in range(ctx.n(2, 8)):
+                    from harness import gens as G
+                    key, iv, data = G.key(rng, ks), rng.randbytes(bs), rng.randbytes(nb * bs)
                     for d in ("encrypt", "decrypt"):
                         cases.append(("%s_%s_cbc" % (d, alg), (key, iv, data)))
                         cases.append(("%s_%s_ecb" % (d, alg), (key, data)))
@@ -66,6 +67,14 @@ def run(ctx):
     for ks in range(0, 33):
         for n in (0, 1, 2, 3, 8, 9):
             cases.append(("generate_kcv", (rng.randbytes(ks), n)))
+    from harness import gens as G
+    # every pattern of equal key components of a triple-length key (K1K1K3, K1K2K2, K1K2K1, KKK) and double-length KK
+    c8 = [rng.randbytes(8) for _ in range(3)]
+    for parts in ((0, 0, 2), (0, 1, 1), (0, 1, 0), (0, 0, 0), (0, 1, 2), (0, 0), (0, 1)):
+        key = b"".join(c8[i] for i in parts)
+        data, iv = rng.randbytes(24), rng.randbytes(8)
+        cases += [("encrypt_tdes_ecb", (key, data)), ("decrypt_tdes_ecb", (key, data)), ("encrypt_tdes_cbc", (key, iv, data)),
+                  ("decrypt_tdes_cbc", (key, iv, data)), ("generate_kcv", (key, 3))]
     # under ONE key: valid, rejected (bad length), valid again - nothing may be left buffered between calls
     for alg in ("tdes", "aes"):
         bs = 8 if alg == "tdes" else 16
